@@ -330,17 +330,21 @@ class Engine:
         if s.value is None:
             return
         v = self.eval(s.value, env)
+        if isinstance(s.target, ast.Name):
+            v = self.spec.on_assign(self, s.target.id, v, s)
         self.assign(s.target, v, env)
 
     def x_Assign(self, s, env):
         v = self.eval(s.value, env)
         for t in s.targets:
+            if isinstance(t, ast.Name):
+                v = self.spec.on_assign(self, t.id, v, s)
             self.assign(t, v, env)
 
     def x_AugAssign(self, s, env):
         cur = self.eval(_load(s.target), env)
         rhs = self.eval(s.value, env)
-        if isinstance(s.op, ast.Add) and isinstance(cur, (ListVal, SeqBox)):
+        if isinstance(s.op, ast.Add) and (isinstance(cur, (ListVal, SeqBox)) or hasattr(cur, "vc_extend")):
             self.call_method(cur, "extend", [rhs], {}, s)
             return
         v = self.binop(s.op, cur, rhs, s)
@@ -593,6 +597,8 @@ class Engine:
         if isinstance(o, (MapVal, ListVal, SeqBox, str, ExcVal)):
             if isinstance(o, ExcVal) and attr == "error_code":
                 return o.code
+            return BoundMethod(o, attr)
+        if hasattr(o, "vc_extend"):
             return BoundMethod(o, attr)
         if o is None:
             self.oblige("attr_%s_of_None" % attr, False, kind="safety:AttributeError", node=node)
